@@ -205,7 +205,8 @@ Definition parse_kind (st : HOState) (h : Header)
     | OutOfFuel => OutOfFuel
     | Done None => Done (st, None)
     | Done (Some pre) =>
-        match convert_path_str (mkPB (ho_curve st) (ho_vertices st)) (spre_point_str pre) (hd_pos h) with
+        (* state.curve_points.clear(): a previously rejected slider may have left points behind *)
+        match convert_path_str (mkPB [] (ho_vertices st)) (spre_point_str pre) (hd_pos h) with
         | Panic w => Panic w
         | OutOfFuel => OutOfFuel
         | Done (pb, Rejected) => Done (set_bufs st pb, None)
